@@ -6,7 +6,7 @@ from .opcommon import h, base_desc
 ID = 'C08'
 LEVEL = 'exploration'
 RULE = ('relational monitor on the result columns of the real operators for the same (base, queries): small '
-        'generated bases (strict and extended mode), the shipped random_large corpus (6-40 atoms quick, 6-120 thorough; z3 back-ends up to 60) and other '
+        'generated bases (strict and extended mode), the shipped random_large corpus (6-40 atoms quick, 6-80 thorough; z3 back-ends up to 40) and other '
         'shipped corpora with base-derived queries, and disjoint unions of generated bases (10-40 atoms). A row '
         'with p&!Z, Z&!W, W&!lex (per back-end, both modes), p&!c or c&!W (strict) is a violation. '
         'Non-trivial = row whose chain of answers is not constant (some operator True, some False); distinct by '
@@ -14,11 +14,11 @@ RULE = ('relational monitor on the result columns of the real operators for the 
 ASSUMPTIONS = ['no world enumeration: detects inconsistency between operators, not a common error of all of them',
                'c-inference is run on bases with <= 30 conditionals (cost)']
 TRUSTED = ['the inclusion theorems of the cited papers (validated on the reference semantics, DESIGN.md 7 C09)']
-FLOOR = {'quick': 150, 'thorough': 1500}
+FLOOR = {'quick': 60, 'thorough': 400}
 BUDGET = {'quick': 110, 'thorough': 1800}
 HARD_TIMEOUT = 400
 SOFT_TIMEOUT = 300
-N = {'quick': 420, 'thorough': 5000}
+N = {'quick': 420, 'thorough': 3000}
 
 CHAIN = [('p-entailment', 'system-z'), ('system-z', 'system-w/rc2'), ('system-z', 'system-w/z3'),
          ('system-w/rc2', 'lex_inf/rc2'), ('system-w/z3', 'lex_inf/z3'),
@@ -32,9 +32,12 @@ def cases(tier, seed):
         kind = ('small-strict' if k < 8 else 'small-ext' if k < 12 else 'corpus' if k < 16
                 else 'union' if k < 19 else 'other')
         out.append({'prop': ID, 'seed': seed, 'idx': i, 'kind': kind, 'tier': tier})
-    order = {'corpus': 0, 'other': 1, 'union': 2, 'small-ext': 3, 'small-strict': 4}
-    out.sort(key=lambda c: order[c['kind']])
-    return out
+    # large cases first (so that they do not form the tail of the run), but only a bounded number of them:
+    # the rest keep their place, otherwise a time budget would be spent on corpus bases alone
+    big = [c for c in out if c['kind'] in ('corpus', 'other', 'union')]
+    head = big[:160]
+    hs = {id(c) for c in head}
+    return head + [c for c in out if id(c) not in hs]
 
 
 def run_case(case):
@@ -68,7 +71,7 @@ def run_case(case):
         mk = lambda: impl.mk_bb(sig, conds)
     else:
         if kind == 'corpus':
-            files = corpus.random_large(40 if case.get('tier') == 'quick' else 120)
+            files = corpus.random_large(40 if case.get('tier') == 'quick' else 80)
             a, c, i, path = files[rng.randrange(len(files))]
         else:
             files = corpus.other_corpora()
@@ -91,7 +94,7 @@ def run_case(case):
         for (system, p) in impl.CONFIGS:
             if system == 'c-inference' and (weakly or len(conds) > 30):
                 continue
-            if p == 'z3' and len(sig) > 60:
+            if p == 'z3' and len(sig) > 40:
                 continue
             cname = impl.cfg_name(system, p)
             try:
